@@ -70,6 +70,7 @@ type transCase struct {
 		Fwd     string `json:"fwd"`
 		Flavour string `json:"flavour"`
 		Hist    string `json:"hist"`
+		By      string `json:"by"`
 	} `json:"case"`
 	Expected string `json:"expected"`
 }
@@ -239,6 +240,12 @@ func (w *transWorld) place(loc, name, mode string) (sys *actor.System, ref vivid
 func (w *transWorld) run(tc *transCase) (string, error) {
 	n := w.seq.Add(1)
 	c := tc.Case
+	if c.By == "system" {
+		// the operation is performed through the ActorSystem handle instead of an actor's context
+		saved := w.opCtx
+		w.opCtx = w.a.Context
+		defer func() { w.opCtx = saved }()
+	}
 	tname := fmt.Sprintf("t%d", n)
 	mode := "echo"
 	if c.Op == "pipe-fail" {
@@ -507,10 +514,10 @@ func checkC15(c *core.Ctx) {
 				break
 			}
 			time.Sleep(5 * time.Millisecond)
-			ev := map[string]any{"e": "Cell", "op": tc.Case.Op, "target": tc.Case.Target, "fwd": tc.Case.Fwd, "flavour": tc.Case.Flavour, "h": tc.Case.Hist,
+			ev := map[string]any{"e": "Cell", "op": tc.Case.Op, "target": tc.Case.Target, "fwd": tc.Case.Fwd, "flavour": tc.Case.Flavour, "h": tc.Case.Hist, "by": tc.Case.By,
 				"s": out, "d": tc.Expected, "v": int(w.decodeFails.Load() - before)}
 			c.Add("evaluations", 1)
-			traces = append(traces, &Trace{Events: []map[string]any{ev}, Class: tc.Case.Op + "-" + tc.Case.Target + map[string]string{"recreated": "-recreated", "after-failed-encode": "-after-failed-encode"}[tc.Case.Hist], Name: fmt.Sprintf("%s/%s/%s/%s/%s#%d", tc.Case.Op, tc.Case.Target, tc.Case.Fwd, tc.Case.Flavour, tc.Case.Hist, rep), Scenario: tc})
+			traces = append(traces, &Trace{Events: []map[string]any{ev}, Class: tc.Case.Op + "-" + tc.Case.Target + map[string]string{"recreated": "-recreated", "after-failed-encode": "-after-failed-encode"}[tc.Case.Hist], Name: fmt.Sprintf("%s/%s/%s/%s/%s/%s#%d", tc.Case.Op, tc.Case.Target, tc.Case.Fwd, tc.Case.Flavour, tc.Case.Hist, tc.Case.By, rep), Scenario: tc})
 		}
 		w.close()
 	}
@@ -523,7 +530,7 @@ func checkC15(c *core.Ctx) {
 	c.Add("traces_validated_against_impl", int64(res.Validated))
 	c.Set("distinct_nontrivial", len(cases))
 	c.Set("exhaustive", true)
-	c.Set("rule", "TLC enumerates the matrix operation {tell, ask, kill, poison kill, watch, unwatch, ping, pipe success, pipe failure, scheduler once} x target {local, remote} x forwarder {local, remote} (pipe) x message flavour {registered custom message, Codec-only message} x path history {fresh, recreated under the same name after an earlier incarnation heard from the operator and terminated, after messages whose encoding failed} (tell/ask/kill/ping/watch), pipe failure by time-out and by a plain error reply, plus watch-both (two watchers with the same path, one on each system); every cell is executed from an operator actor on system A against actors on A or on a second real system B over loopback TCP; TransMon compares the observed outcome with the location-independent expectation and requires that no built-in message fails to decode. Every cell is distinct; remote cells are the non-trivial ones.")
+	c.Set("rule", "TLC enumerates the matrix operation {tell, ask, kill, poison kill, watch, unwatch, ping, pipe success, pipe failure, scheduler once} x target {local, remote} x forwarder {local, remote} (pipe) x operator {an actor's context, the ActorSystem handle} x message flavour {registered custom message, Codec-only message} x path history {fresh, recreated under the same name after an earlier incarnation heard from the operator and terminated, after messages whose encoding failed} (tell/ask/kill/ping/watch), pipe failure by time-out and by a plain error reply, plus watch-both (two watchers with the same path, one on each system); every cell is executed from an operator actor on system A against actors on A or on a second real system B over loopback TCP; TransMon compares the observed outcome with the location-independent expectation and requires that no built-in message fails to decode. Every cell is distinct; remote cells are the non-trivial ones.")
 	if len(traces) > 0 {
 		c.Sample(traces[0].Events)
 		c.Sample(traces[len(traces)-1].Events)
